@@ -27,9 +27,11 @@ def parseReads (bridge : Bool) : Nat → List String → Option (List ReadEv × 
 def parseWrites : Nat → List String → Option (List WriteEv × List String)
   | 0, ts => some ([], ts)
   | n + 1, a :: e :: ts => do
-    let a ← a.toNat?
     let (r, ts') ← parseWrites n ts
-    pure (⟨a, e == "1"⟩ :: r, ts')
+    if a == "b" then pure (⟨0, false, true⟩ :: r, ts')     -- blocking write (back-pressure)
+    else do
+      let a ← a.toNat?
+      pure (⟨a, e == "1", false⟩ :: r, ts')
   | _, _ => none
 
 /-- bandwidth limit `L` bytes/s ↦ limiter burst `2·L` (NewBridge: `rate.NewLimiter(L, 2L)`). -/
